@@ -76,6 +76,8 @@ def run(ctx):
     res.assumptions += ["t > 0 (t <= 1 for R2), n >= 2, as in the property's quantifier", "the distance callee returns a vector (one value per row)",
                         "integer arithmetic on indices"]
     res.not_decided += ["numerical meaning of the eps guard", "behaviour for NaN/inf", "that d[0] is exactly 0 in floating point (not needed once R1 holds)"]
+    from .common import hidden_state as _hidden_state
+    _hidden_state(rc, "R7", ['rdp.rdp', 'rdp.rdp_fixed', 'rdp.grdp', 'rdp.mp_grdp', 'rdp.min_point_rdp'], "the simplifiers")
     res.require_instances("C01 obligations", len(res.obligations), 60)
 
 
